@@ -32,6 +32,14 @@ THEOREMS = [
     "C15_getter_hide_accepted",
     "C15_live_hide",
     "C15_at_any_moment_live",
+    "C15_heap_inv",
+    "C15_detached_edit",
+    "C15_setter_copies",
+    "C15_no_alias_edit",
+    "C15_heap_edit_is_edit",
+    "C15_reload_same",
+    "C15_at_any_moment_heap",
+    "C15_replace_panel",
 ]
 RULE = (
     "seeded random editing histories of a real Workflow (add/remove/re-add/replace children of two node "
@@ -58,9 +66,14 @@ TRUSTED = [
     "_update, MutableBidict) and the getter's _deduplicate_nones on the live object",
     "`io[key] = channel` for a key already present calls existing.connect(channel) between two channels of the "
     "same side, which raises TypeError by C12's conjugate typing: modelled as 'panel access raises'",
-    "what a run does to channel values (C01) and replace_child's rewiring (C14) are observed on the "
-    "implementation and re-synchronised into the model; the hint verdict of a value is computed by the harness "
-    "with plain isinstance",
+    "what a run does to channel values (C01) and the values copy_io moves in replace_child (C14) are observed on "
+    "the implementation and fed to the model; the STRUCTURE of replace_child (children, connections, the up-front "
+    "panel reads, the IO rebuild) is the model's own (WfIO.replaceChild, same-labelled replacements only); the hint "
+    "verdict of a value is computed by the harness with plain isinstance",
+    "map objects have identity in the model (MapHeap: heap of dict/bidict objects, four stored references, the "
+    "setter's in-place cleaning of a dict argument and fresh bidict copy, the getter handing out the stored "
+    "reference, pickle round trip = fresh copies + links to outside nodes cut); the detached objects (assigned "
+    "original, replaced live map, second workflow's live map) are observed raw and compared after every op",
 ]
 ASSUMPTIONS = [
     "channel identity = Python object identity",
@@ -793,8 +806,9 @@ def _fmt(st):
     head = st["res"]
     if st["ret"] is not None:
         head += " ret:{" + ",".join(f"{k}={v}" for k, v in st["ret"]) + "}"
+    objs = ";".join(f"{k}={_fmt_map(v)}" for k, v in st.get("objs", []))
     return (f"{head} in:{_fmt_panel(st['panel']['in'])} out:{_fmt_panel(st['panel']['out'])} "
-            f"imap:{_fmt_map(st['maps']['in'])} omap:{_fmt_map(st['maps']['out'])} "
+            f"imap:{_fmt_map(st['maps']['in'])} omap:{_fmt_map(st['maps']['out'])} objs:{objs} "
             f"vals:{','.join(f'{i}={v}' for i, v in enumerate(st['vals']))}")
 
 
@@ -845,10 +859,11 @@ def run_impl(case):
     inst = _static(case)
     ctor = case["ops"][0] if case["ops"] and case["ops"][0][0] == "ctor" else None
     ctor_exc = None
+    ctor_objs = {}
     if ctor is not None:
+        ctor_objs = {"in": None if ctor[1] is None else dict(ctor[1]), "out": None if ctor[2] is None else dict(ctor[2])}
         try:
-            wf = Workflow("w", autoload=None, inputs_map=None if ctor[1] is None else dict(ctor[1]),
-                          outputs_map=None if ctor[2] is None else dict(ctor[2]))
+            wf = Workflow("w", autoload=None, inputs_map=ctor_objs["in"], outputs_map=ctor_objs["out"])
         except Exception as e:  # noqa: BLE001
             ctor_exc = type(e).__name__
             wf = Workflow("w", autoload=None)
@@ -856,6 +871,8 @@ def run_impl(case):
         wf = Workflow("w", autoload=None)
     other = []  # a second workflow, made when first needed
     foreign = {"in": {}, "out": {}}  # map objects that are not (any more) the workflow's stored maps
+    for sd, o in ctor_objs.items():
+        foreign[sd]["orig"] = o
     graveyard = []  # replaced objects are kept alive so that id() stays unambiguous
     node = {}  # tag -> node object
     obj = []  # id -> channel object
@@ -910,6 +927,9 @@ def run_impl(case):
             return [("!getter", f"?{type(e).__name__}")]
         if m is None:
             return None
+        return fmt_items(m)
+
+    def fmt_items(m):
         out = []
         for k, v in m.items():
             if isinstance(v, str):
@@ -934,6 +954,9 @@ def run_impl(case):
             "vals": [tok(ch.value) for ch in obj],
             "panel": {"in": panel("in"), "out": panel("out")},
             "maps": {"in": getmap("in"), "out": getmap("out")},
+            # the detached map objects the user still holds, as they are (no getter involved)
+            "objs": [(f"{sd}.{which}", fmt_items(foreign[sd][which])) for sd in ("in", "out")
+                     for which in ("orig", "stale", "other") if foreign[sd].get(which) is not None],
         }
 
     states = []
@@ -1052,12 +1075,8 @@ def run_impl(case):
                             except Exception:  # noqa: BLE001  (whatever that object says; not the workflow's)
                                 pass
             elif what == "reload":
-                # a pickle round trip; only when no child is wired to a node outside (storage refuses that)
-                mine = {id(ch) for n in wf.children.values() for ch in [*n.inputs, *n.outputs]}
-                if any(id(c) not in mine for n in wf.children.values() for ch in [*n.inputs, *n.outputs]
-                       for c in ch.connections):
-                    res = "skip"
-                else:
+                # a pickle round trip (storage keeps the links among the children only)
+                if True:
                     new = pickle.loads(pickle.dumps(wf))
                     for side in ("in", "out"):
                         foreign[side]["stale"] = live(side)
@@ -1089,17 +1108,24 @@ def run_impl(case):
                         n.failed = False
                         n.running = False
             elif what == "replace":
+                target = wf.children.get(op[1]) if hasattr(wf.children, "get") else None
                 if op[3] in node:
                     res = "skip"
+                elif target is not None and inst.get(tag_of.get(id(target), "?"), {}).get("kind") != op[2]:
+                    res = "skip"  # a replacement with other channel labels: C14's subject
                 else:
                     new = create(op[2], f"r_{op[3]}", op[3])
                     try:
                         wf.replace_child(op[1], new)
-                        res = "sync"
-                    except Exception as e:  # noqa: BLE001
+                    except RecursionError as e:
+                        # (trees without 7f0ab07) the composite's bookkeeping is arbitrary from here on
                         res = "sync"
                         info["exc"] = type(e).__name__
+                        info["dead"] = True
                         dead = True
+                    except Exception as e:  # noqa: BLE001
+                        info["exc"] = type(e).__name__
+                        res = RES.get(type(e).__name__, "exc:" + type(e).__name__)
             else:
                 res = "skip"
         except Exception as e:  # noqa: BLE001
@@ -1160,7 +1186,8 @@ def _map_line(side, m, form="dict"):
     word = {"in": "imap", "out": "omap", "both": "bothmap"}[side]
     if m is None:
         return f"{word} none"
-    return f"{word} {_eff_form(m, form)} " + " ".join(f"{k}>{'-' if v is None else v}" for k, v in m.items())
+    shared = "shared " if form in ("shared", "sharedb") else ""
+    return f"{word} {shared}{_eff_form(m, form)} " + " ".join(f"{k}>{'-' if v is None else v}" for k, v in m.items())
 
 
 def _tok_edit(e):
@@ -1218,12 +1245,10 @@ def model_input(case, impl=None):
         elif what == "mapboth":
             lines.append(_map_line("both", op[1], op[2]))
         elif what == "medit":
-            if op[2] in ("getter", "held"):
-                lines.append(" ".join(["medit", op[1], op[2]] + [_tok_edit(e) for e in op[3]]))
-            else:
-                lines.append("noop")  # the edited object is not the workflow's map
+            # also for the detached objects (orig / stale / other): the model has them in its heap
+            lines.append(" ".join(["medit", op[1], op[2]] + [_tok_edit(e) for e in op[3]]))
         elif what == "reload":
-            lines.append("noop")  # a pickled and unpickled copy is the same workflow
+            lines.append("reload")
         elif what == "assign":
             lines.append(f"assign {op[1]} {op[2]} {tok(op[3])}")
         elif what == "run":
@@ -1234,23 +1259,18 @@ def model_input(case, impl=None):
                 if op[1] or prev_vals is None or c >= len(prev_vals) or prev_vals[c] != v:
                     lines.append(f"q val {c} {v}")
             lines.append(f"run {res}")
-        elif what == "replace" and st["info"].get("exc"):
-            # a replace_child that raised: the history ends here (see run_impl); whether the state it
-            # leaves is consistent is judged by the oracle alone
+        elif what == "replace" and st["info"].get("dead"):
+            # a replace_child that recursed out of its own revert: the history ends here (see run_impl);
+            # whether the state it leaves is consistent is judged by the oracle alone
             pass
         elif what == "replace":
-            # replace_child's rewiring is C14's subject: re-synchronise children, connections, values
+            # the structure (children, connections, panels) is the model's own; the values copy_io moved
+            # are C14's subject: observed, fed
             created.add(op[3])
             lines += _init_lines(inst, op[3])
-            lines.append(_decl(inst, op[3], f"r_{op[3]}", "q ext"))
-            lines.append("q clearchildren")
-            for lab, tag in st["children"]:
-                lines.append("q " + _decl(inst, tag, lab))
-            for c, l in enumerate(st["conns"]):
-                lines.append(f"q setconns {c} " + " ".join(map(str, l)))
             for c, v in enumerate(st["vals"]):
                 lines.append(f"q val {c} {v}")
-            lines.append("sync")
+            lines.append(_decl(inst, op[3], op[1], "replace"))
         prev_vals = st["vals"]
     return lines
 
@@ -1259,7 +1279,7 @@ def corr_view(case, impl):
     if "raw" in case:
         return impl["obs"]
     return [line for st, line in zip(impl["states"], impl["obs"])
-            if st["res"] != "skip" and not (st["op"][0] == "replace" and st["info"].get("exc"))]
+            if st["res"] != "skip" and not (st["op"][0] == "replace" and st["info"].get("dead"))]
 
 
 # ----------------------------------------------------------------------------- oracle (independent of the model)
@@ -1369,6 +1389,13 @@ def oracle(case, r):
             if seen != umap[side]:
                 fails.append(_f("map-content", k, op, f"{side}: the map reads {seen}, the user asked for "
                                                       f"{umap[side]}", side=side))
+
+        # ---- replacing a child by a node with the same channels is an edit like any other: where both panels
+        # could be built before, it must go through (a refusal would leave a child un-replaceable)
+        if op[0] == "replace" and res not in ("ok", "sync") and prev is not None \
+                and any(lab == op[1] for lab, _t in prev["children"]) \
+                and not isinstance(prev["panel"]["in"], str) and not isinstance(prev["panel"]["out"], str):
+            fails.append(_f("valid-replace-refused", k, op, f"{res} ({st['info'].get('exc')})"))
 
         # ---- key set and identity of both panels, after every op
         expected = {}
